@@ -72,6 +72,7 @@ type Opq struct {
 	Inner Value // for MakeInterface: the wrapped value
 	Tag   string
 	Str   *string // constant string value when known
+	NilC  *T      // for interface / error values: the condition under which the value is nil
 }
 
 // Clo is a closure value.
@@ -290,6 +291,20 @@ func zipLeaves(a, b Value, f func(x, y Sc) Sc) (Value, bool) {
 			z.Cap = f(Sc{T: x.Cap}, Sc{T: y.Cap}).T
 			return z, true
 		}
+		if x.Nil != y.Nil {
+			// nil merged with a non-nil slice: the non-nil shape with zero length/capacity on the nil side
+			// (a nil slice is an empty slice for everything but comparison with nil)
+			z, n := x, y
+			if x.Nil {
+				z, n = y, x
+			}
+			_ = n
+			zero := Sc{T: lit(64, 0)}
+			if x.Nil {
+				return Slc{Obj: z.Obj, Path: z.Path, Off: z.Off, Len: f(zero, Sc{T: z.Len}).T, Cap: f(zero, Sc{T: z.Cap}).T}, true
+			}
+			return Slc{Obj: z.Obj, Path: z.Path, Off: z.Off, Len: f(Sc{T: z.Len}, zero).T, Cap: f(Sc{T: z.Cap}, zero).T}, true
+		}
 		if !x.Nil && !y.Nil && x.Obj != y.Obj && x.Len.S == lit(64, 0).S && y.Len.S == lit(64, 0).S {
 			// two empty slices over different backing arrays: no element is observable; keep one
 			z := x
@@ -314,7 +329,20 @@ func zipLeaves(a, b Value, f func(x, y Sc) Sc) (Value, bool) {
 			Len: f(Sc{T: x.Len}, Sc{T: y.Len}).T,
 			Cap: f(Sc{T: x.Cap}, Sc{T: y.Cap}).T}, true
 	case Opq:
-		// opaque values merge to the first (their identity is not modelled)
+		// opaque values merge to the first (their identity is not modelled); nil-ness is merged
+		if y, ok := b.(Opq); ok && (x.NilC != nil || y.NilC != nil) {
+			xc, yc := tFalse, tFalse
+			if x.NilC != nil {
+				xc = *x.NilC
+			}
+			if y.NilC != nil {
+				yc = *y.NilC
+			}
+			c := f(Sc{T: xc}, Sc{T: yc}).T
+			z := x
+			z.NilC = &c
+			return z, true
+		}
 		return x, true
 	case Clo:
 		y, ok := b.(Clo)
